@@ -226,7 +226,7 @@ func genScenario(t *rapid.T, s *rt.Spec, d domain) *rt.Scenario {
 		}
 	}
 	scn.G = d.g[uniform(t, "g", len(d.g))]
-	if d.rdv > 0 && !faulty && s.Kind == "parallel" && prob(t, "rdv", d.rdv) {
+	if d.rdv > 0 && !faulty && prob(t, "rdv", d.rdv) {
 		// small collections (so that everything fits under the limit) and,
 		// often, empty ones whose End function is then runnable from the start
 		hasEnd := map[int]bool{}
